@@ -9,7 +9,7 @@ from __future__ import annotations
 from dataclasses import dataclass, field
 from typing import Dict, List, Optional, Tuple
 
-from ..kit import Ctx, calls, calls_target, kw, loops
+from ..kit import Ctx, calls, calls_target, kw, loops, short
 from ..paths import Event, Path
 from ..terms import Term, key, strip_ver
 
@@ -68,6 +68,13 @@ def handling_blocks(ctx: Ctx) -> List[Block]:
         elem = ("sym", f"{loop.target[0]}∈{loop.loopid}")
         phase = "hft" if loop.iter is not None and loop.iter[0] == "call" and loop.iter[1][0] == "attr" and loop.iter[1][2] == "submit_orders" else "normal"
         for a in acc:
+            arg = a.args[0] if a.args else (a.kwargs[0][1] if a.kwargs else None)
+            if arg is not None and strip_ver(arg)[0] == "call" and getattr(a, "site", None) is not None and any(x.kind == "call" and x.term == arg and x.site.how == "ctor" for x in p.events):
+                # the runner hands the market an order / cancel it has made itself (not an element of an agent's batch): a
+                # mechanism next to the one the rules over the handling of a batch describe
+                from ..terms import Unrecognised
+
+                raise Unrecognised(f"{HO}: the market is given {short(arg)[:60]}, an object the runner builds itself; the rules describe the handling of the elements of the agents' batches only")
             blocks.append(Block("order" if calls_target(a, ADD) else "cancel", phase, p, loop, elem, a, outer_path, chain[-2][1] if len(chain) >= 2 else None))
     ctx._blocks = blocks  # type: ignore[attr-defined]
     return blocks
